@@ -1,6 +1,7 @@
 package rules
 
 import (
+	"go/token"
 	"fmt"
 	"go/types"
 	"sort"
@@ -30,6 +31,76 @@ func runC12(c *core.Ctx, r *core.Reporter) {
 	c12ready(c, r)
 	c12remerge(c, r)
 	c12prec(c, r)
+	c12copy(c, r)
+}
+
+// c12copy: the precedence list is read where it is needed, never cached somewhere else.
+func c12copy(c *core.Ctx, r *core.Reporter) {
+	const rule = "C12.copy"
+	r.Rule(rule, "a class precedence list obtained from a class (the precedence field, or precedenceList()) is never stored into another field or package variable: a redefinition re-merges the class in place and replaces the list, so a cached copy in an instance or elsewhere keeps answering typep and dispatch from the old hierarchy", 2)
+	n := map[string]int{}
+	for _, fn := range c.ModuleFuncs() {
+		if takesTestingT(fn) || fn.Pkg == nil || fn.Pkg.Pkg.Path() != closPath {
+			continue
+		}
+		for _, b := range fn.Blocks {
+			for _, in := range b.Instrs {
+				var src ssa.Value
+				switch x := in.(type) {
+				case *ssa.Call:
+					if callMethodName(x) == "precedenceList" {
+						src = x
+					}
+				case *ssa.UnOp:
+					if fa, ok := x.X.(*ssa.FieldAddr); ok && x.Op == token.MUL && fieldName(fa) == "precedence" {
+						src = x
+					}
+				}
+				if src == nil {
+					continue
+				}
+				// follow the value to stores
+				stored := ""
+				seen := map[ssa.Value]bool{}
+				var walk func(v ssa.Value, d int)
+				walk = func(v ssa.Value, d int) {
+					if seen[v] || d > 5 || v.Referrers() == nil {
+						return
+					}
+					seen[v] = true
+					for _, rf := range *v.Referrers() {
+						switch y := rf.(type) {
+						case *ssa.Store:
+							if y.Val != v {
+								continue
+							}
+							switch a := y.Addr.(type) {
+							case *ssa.FieldAddr:
+								if fieldName(a) != "precedence" {
+									stored = fmt.Sprintf("field %s at %s", fieldName(a), c.Pos(y.Pos()))
+								}
+							case *ssa.Global:
+								stored = fmt.Sprintf("variable %s at %s", a.Name(), c.Pos(y.Pos()))
+							}
+						case *ssa.Phi:
+							walk(y, d+1)
+						case *ssa.Slice:
+							walk(y, d+1)
+						case *ssa.ChangeType:
+							walk(y, d+1)
+						}
+					}
+				}
+				walk(src, 0)
+				key := core.SSAName(fn) + "|precedence read"
+				n[key]++
+				if k := n[key]; k > 1 {
+					key = fmt.Sprintf("%s#%d", key, k)
+				}
+				r.Decide(stored == "", rule, key, c.Pos(in.Pos()), orOKs(stored, "used in place, not stored elsewhere"))
+			}
+		}
+	}
 }
 
 func c12ready(c *core.Ctx, r *core.Reporter) {
